@@ -140,7 +140,8 @@ Fixpoint obj_loop (fuel : nat) (i : istream) (acc : list delivered) (count : Z) 
             match osize cs c o0 with
             | Err _ => (acc, count, EndUnsafe)
             | Ok sz0 =>
-                let tmp := if osz <? sz0 then norm I32 (norm U32 (osz - sz0)) else 0 in
+                let dsz := if 16 <? osz then osz else 16 in     (* a declared size below one base header counts as one header *)
+                let tmp := if dsz <? sz0 then norm I32 (norm U32 (dsz - sz0)) else 0 in
                 match dec cs sp cap c o0 i2 with
                 | Err EThrow => (acc, count, EndException)
                 | Err EAlloc => (acc, count, EndForeign)
